@@ -65,7 +65,7 @@ def same_float(a, b):
 def gen_grid(rng):
     t = rng.random()
     if t < 0.35:
-        return ['cdf', rng.choice([2, 3, 4, 5, 6, 7, 9, 12])]
+        return ['cdf', rng.choice([2, 3, 4, 5, 6, 7, 9, 12, 33, 41])]      # (dense grids too: more markers than any small-grid shortcut expects)
     if t < 0.6:
         k = rng.randint(0, 6)
         inner = sorted(round(rng.uniform(0.01, 0.99), rng.choice([1, 2, 3])) for _ in range(k))
